@@ -202,6 +202,10 @@ func flatExpr(e J, out *[]any) {
 	case "acct", "asset", "str":
 		*out = append(*out, e["k"], e["v"])
 	case "num":
+		if e["big"] == true {
+			*out = append(*out, "numbig", e["s"])
+			return
+		}
 		*out = append(*out, "num", fmt.Sprint(e["v"]))
 	case "portion":
 		if e["big"] == true {
